@@ -398,6 +398,67 @@ def h_preempt(ctx, scenario, hub, bound, nondefault=False):
   ctx.witness('done')
 
 
+class WouldBlock(Exception):
+  pass
+
+
+def h_pinger(ctx, kind):
+  """The wake-up channel itself (pox.lib.util.make_pinger, the real PipePinger / SocketPinger code) over a model of the pipe / socket pair:
+  a byte counter; reading an empty blocking pipe never returns (reported), a non-blocking socket raises.  The number of pings that piled up
+  while the scheduler was busy is *symbolic* (1..5000): acknowledging them (pong_all, as CallLaterTask.run and SelectHub._select do after
+  select() reported the pinger readable) must never block, must consume at least one byte, and a ping written afterwards is not lost."""
+  env.quiet()
+  U = ctx.pox('pox.lib.util')
+  n = ctx.int('pending', 1, 5000)
+  st = dict(pending=0, blocked=False, reads=0)
+  class Chunk:
+    def __init__(self, k): self.k = k
+    def __symlen__(self): return self.k
+    def __len__(self): return int(self.k)
+  def take(maxn):
+    st['reads'] += 1
+    if st['reads'] > 20: raise RuntimeError("runaway read loop")
+    if bool(st['pending'] == 0):
+      st['blocked'] = True
+      raise WouldBlock("read on an empty wake-up channel")
+    k = ctx.Ite(st['pending'] < maxn, st['pending'], maxn) if ctx.sym else min(st['pending'], maxn)
+    st['pending'] = st['pending'] - k
+    return Chunk(k)
+  class OS:
+    name = 'posix'
+    def pipe(self): return (10, 11)
+    def write(self, fd, data): st['pending'] = st['pending'] + len(data); return len(data)
+    def read(self, fd, maxn): return take(maxn)
+    def close(self, fd): pass
+    def __getattr__(self, a): return getattr(os_real, a)
+  import os as os_real
+  saved = U.os
+  try:
+    U.os = OS()
+    p = U.make_pinger()
+    ctx.check('a pinger is built on the pipe', p.fileno() == 10)
+    p.ping()
+    ctx.check('a ping makes the channel readable', bool(st['pending'] == 1))
+    st['pending'] = n                 # n pings piled up while the scheduler thread was busy / held in a synchronized section
+    try:
+      if kind == 'pong_all': p.pong_all()
+      elif kind == 'pongAll': p.pongAll()
+      else: p.pong()
+    except WouldBlock:
+      pass
+    ctx.check('acknowledging a readable pinger never blocks (no read on an empty channel)', not st['blocked'])
+    ctx.check('acknowledging consumes at least one pending ping', bool(st['pending'] < n))
+    before = st['pending']
+    p.ping()
+    ctx.check('a ping written after the acknowledgement is still pending (the next select() returns at once)', bool(st['pending'] == before + 1) and bool(st['pending'] >= 1))
+  finally:
+    try: p._w = p._r = -1            # (its __del__ closes the descriptors: never the real ones of this process)
+    except NameError: pass
+    U.os = saved
+  if bool(n >= 1024): ctx.witness('full-buffer')
+  ctx.witness('done')
+
+
 def obligations(tier):
   thorough = tier != 'quick'
   A, T, Rl, Z = 'acq', 'try', 'rel', 'zero'
@@ -434,6 +495,8 @@ def obligations(tier):
                desc='callLater / schedule at operation granularity: exactly once, in order, inside the scheduler; single queueing of woken tasks'),
     Obligation('O4_preempt', h_preempt, pre, witnesses=('done', 'bound-reached'), max_decisions=20000, mode='int', path_seconds=120,
                desc='real threads (foreign, scheduler, hub) interleaved at source-line granularity of recoco.py, all schedules with a bounded number of preemptions'),
+    Obligation('O5_pinger', h_pinger, [dict(kind=k) for k in ('pong_all', 'pongAll', 'pong')], witnesses=('done', 'full-buffer'), mode='int',
+               desc='the wake-up channel (real PipePinger over a model pipe): acknowledging any number of piled-up pings never blocks and loses no later ping'),
     Obligation('O3_idle', h_idle, [dict(plan=p) for p in idle_plans], witnesses=('done',), mode='int',
                desc='threaded select hub, operation granularity: a wake-up since the last idle() makes the next idle() return at once; otherwise it blocks <= CYCLE_MAXIMUM'),
   ]
